@@ -142,14 +142,16 @@ func (c *mockH3Conn) tracingID() quic.ConnectionTracingID {
 
 var errNoStreams = errors.New("mock connection: cannot open streams")
 
-func (c *mockH3Conn) OpenStream() (quic.Stream, error)                        { return nil, errNoStreams }
-func (c *mockH3Conn) OpenStreamSync(context.Context) (quic.Stream, error)     { return nil, errNoStreams }
-func (c *mockH3Conn) OpenUniStream() (quic.SendStream, error)                 { return nil, errNoStreams }
+func (c *mockH3Conn) OpenStream() (quic.Stream, error)                    { return nil, errNoStreams }
+func (c *mockH3Conn) OpenStreamSync(context.Context) (quic.Stream, error) { return nil, errNoStreams }
+func (c *mockH3Conn) OpenUniStream() (quic.SendStream, error)             { return nil, errNoStreams }
 func (c *mockH3Conn) OpenUniStreamSync(context.Context) (quic.SendStream, error) {
 	return nil, errNoStreams
 }
-func (c *mockH3Conn) LocalAddr() net.Addr  { return &net.UDPAddr{IP: net.IPv4(10, 0, 0, 1), Port: 443} }
-func (c *mockH3Conn) RemoteAddr() net.Addr { return &net.UDPAddr{IP: net.IPv4(10, 9, 9, 9), Port: 5555} }
+func (c *mockH3Conn) LocalAddr() net.Addr { return &net.UDPAddr{IP: net.IPv4(10, 0, 0, 1), Port: 443} }
+func (c *mockH3Conn) RemoteAddr() net.Addr {
+	return &net.UDPAddr{IP: net.IPv4(10, 9, 9, 9), Port: 5555}
+}
 func (c *mockH3Conn) CloseWithError(quic.ApplicationErrorCode, string) error {
 	c.mu.Lock()
 	c.closed = true
@@ -171,8 +173,8 @@ func (initConn) AcceptStream(context.Context) (quic.Stream, error) { return nil,
 func (initConn) AcceptUniStream(context.Context) (quic.ReceiveStream, error) {
 	return nil, errNoStreams
 }
-func (initConn) SendDatagram([]byte) error                         { return errNoStreams }
-func (initConn) ReceiveDatagram(context.Context) ([]byte, error)   { return nil, errNoStreams }
+func (initConn) SendDatagram([]byte) error                       { return errNoStreams }
+func (initConn) ReceiveDatagram(context.Context) ([]byte, error) { return nil, errNoStreams }
 
 // NewWTServer returns an initialised webtransport.Server (no sockets).
 func NewWTServer() *wt.Server {
@@ -189,10 +191,10 @@ type wtRW struct {
 	str  *mockStream
 }
 
-func (w wtRW) Header() http.Header         { return w.e.hdr }
-func (w wtRW) WriteHeader(code int)        { recorder{w.e}.WriteHeader(code) }
-func (w wtRW) Write(p []byte) (int, error) { return recorder{w.e}.Write(p) }
-func (w wtRW) Flush()                      { recorder{w.e}.Flush() }
+func (w wtRW) Header() http.Header          { return w.e.hdr }
+func (w wtRW) WriteHeader(code int)         { recorder{w.e}.WriteHeader(code) }
+func (w wtRW) Write(p []byte) (int, error)  { return recorder{w.e}.Write(p) }
+func (w wtRW) Flush()                       { recorder{w.e}.Flush() }
 func (w wtRW) Connection() http3.Connection { return w.conn }
 func (w wtRW) HTTPStream() http3.Stream     { return w.str }
 
@@ -203,20 +205,20 @@ type WTClient struct {
 	O   ClientOpts
 	Sid string // non-empty: upgrade candidate for Sid
 
-	Ex     *Exchange
-	Conn   *mockH3Conn
-	ReqStr *mockStream // CONNECT request stream (capsules)
-	Bidi   *mockStream // the client-initiated bidirectional stream
+	Ex           *Exchange
+	Conn         *mockH3Conn
+	ReqStr       *mockStream // CONNECT request stream (capsules)
+	Bidi         *mockStream // the client-initiated bidirectional stream
 	bidiInjected bool
 
-	inbuf   []byte
-	capbuf  []byte
-	RecvFrames []Frame
-	Recv    []Pkt
-	RecvAt  []time.Duration
-	Msgs    []Pkt
-	Open    *OpenInfo
-	Errs    []string
+	inbuf         []byte
+	capbuf        []byte
+	RecvFrames    []Frame
+	Recv          []Pkt
+	RecvAt        []time.Duration
+	Msgs          []Pkt
+	Open          *OpenInfo
+	Errs          []string
 	SessionClosed bool
 	CloseCode     uint32
 	CloseMsg      string
